@@ -35,7 +35,7 @@ the asked-for space was free) — any stop policy otherwise.  No bound on the so
 -/
 namespace EncodingRs.Thm.C06
 open EncodingRs EncodingRs.Model EncodingRs.Lemmas.Core EncodingRs.Lemmas.FamLaws EncodingRs.Lemmas.Life
-open EncodingRs.Lemmas.LifeLeaf EncodingRs.Lemmas.Scalar EncodingRs.Thm.C10 EncodingRs.Thm.C01
+open EncodingRs.Lemmas.LifeLeaf EncodingRs.Lemmas.Scalar EncodingRs.Thm.C10 EncodingRs.Thm.C01 EncodingRs.Thm
 
 /-! ## (a) error spans -/
 
@@ -1144,5 +1144,34 @@ theorem rawCall_malformed_ranges (v : Gen.Variant) (nom : Nominal) (bom : BomHan
   rw [h] at hs
   obtain ⟨⟨a1, a2, a3, a4⟩, a5⟩ := hs.2.2 l a rfl
   exact ⟨a1, a2, a3, a4, a5⟩
+
+/-! ## Non-vacuity -/
+
+/-- the documented worst case `len + after = 6` is reached, and it is tight for the span bound:
+ISO-2022-JP, `ESC ( B ESC ( B` from the initial state — `Malformed(3, 3)` with exactly 6 bytes read -/
+example :
+    (call iso2022JpFam .utf8 isoInit [0x1B, 0x28, 0x42, 0x1B, 0x28, 0x42] false .unlimited).res = .malformed 3 3 ∧
+    (call iso2022JpFam .utf8 isoInit [0x1B, 0x28, 0x42, 0x1B, 0x28, 0x42] false .unlimited).read = 6 := by
+  decide
+
+section demo
+private def vW : Gen.Variant := .singleByte 19 160 32 96
+private def dW2 : Decoder (famOfVariant vW) := ⟨.seenUtf8Second, .nominal ()⟩
+
+/-- windows-1252, sniffing, `EF BB` withheld, four-byte UTF-8 destination (the documented minimum):
+the replay of `EF BB` stops with an admissible `OutputFull` after `EF` (2 bytes written, 3 asked for,
+4 available) — the hypotheses of `decoder_never_panics` hold and the call does not panic (it leaves
+`BB` pending: the repaired path of finding F2) -/
+example :
+    dW2.rawCall .utf8 [0x41] false (.full 1) .unlimited ≠ .panic ∧
+    (dW2.cur.call .utf8 (C07.replayBytes dW2.life) false (.full 1)).res = .outputFull := by
+  have hres : (dW2.cur.call .utf8 (C07.replayBytes dW2.life) false (.full 1)).res = .outputFull := by
+    decide +kernel
+  refine ⟨?_, hres⟩
+  refine decoder_never_panics (famOk_variant vW) (C08.famOfVariant_needsBounded vW) .utf8 dW2 (fun _ => rfl)
+    (by decide) [0x41] false (.full 1) .unlimited 4 (by decide) ?_
+  intro _
+  decide +kernel
+end demo
 
 end EncodingRs.Thm.C06
